@@ -1,6 +1,7 @@
 import OcppModel.DriverContainers
 import OcppModel.DriverDateTime
 import OcppModel.DriverDisp
+import OcppModel.DriverOcppJ
 
 /-! Line-protocol oracle: `driver <suite>` reads one operation per line on stdin and prints the model's
     observable output for each. -/
@@ -60,5 +61,6 @@ def main (args : List String) : IO UInt32 := do
   | ["cdmon"] => loopGen stdin stdout Ocpp.Drv.stepCMon (some {}); pure 0
   | ["sdmon"] => loopGen stdin stdout Ocpp.Drv.stepSMon (some {}); pure 0
   | ["c03"] => loopPure stdin stdout Ocpp.Drv.stepC03; pure 0
+  | ["c06"] => loopPure stdin stdout Ocpp.Drv.stepC06; pure 0
   | ["datetime"] => loopPure stdin stdout Ocpp.Drv.stepDateTime; pure 0
   | _ => IO.eprintln "usage: driver <suite>"; pure 2
